@@ -67,7 +67,7 @@ func setup(args map[string]string, tier string) error {
 // instance (sorted insertion, no unrelated documents, no tracing, no history).
 type refReq struct {
 	Docs      []int    `json:"docs"`  // indices into the corpus
-	Twins     []int    `json:"twins"` // positions in Docs whose text is added again: under the name Twin-<k> (even k) or under the same name as variant <variant>.twin-<k> (odd k)
+	Twins     []int    `json:"twins"` // positions in Docs whose text is added again: under the name Twin-<k> (even k) or under the same name as variant twin-<k>.<variant> (odd k)
 	Threshold float64  `json:"threshold"`
 	Inputs    [][]byte `json:"inputs"`
 }
@@ -82,7 +82,7 @@ func worldDocs(r *refReq) []v2kit.Doc {
 		if k%2 == 1 {
 			// same license name, another variant with the same text: only Variant
 			// distinguishes the two results (round 4, C04-m13)
-			w = append(w, v2kit.Doc{Category: d.Category, Name: d.Name, Variant: fmt.Sprintf("%s.twin-%d", d.Variant, k), Data: d.Data})
+			w = append(w, v2kit.Doc{Category: d.Category, Name: d.Name, Variant: fmt.Sprintf("twin-%d.%s", k, d.Variant), Data: d.Data}) // keeps the "txt" suffix LoadLicenses filters on
 			continue
 		}
 		w = append(w, v2kit.Doc{Category: d.Category, Name: fmt.Sprintf("Twin-%d", k), Variant: d.Variant, Data: d.Data})
